@@ -14,7 +14,7 @@ from harness.readers import ReaderSuite, call, gen_requests, outcome_of
 
 PROPERTY = "C06"
 PROPS_FILE = "Props/C06.v"
-MODEL_FILES = ["Model/Hds.v"]
+MODEL_FILES = ["Model/Hds.v", "Model/Hdd.v", "Proofs/Layers.v"]
 META = {
     "category": "proof",
     "text": "Coq theorems: the HDS reader model (_iter_runs run coalescer with an explicit sparse sentinel, BAT entries in "
@@ -205,6 +205,55 @@ class HddSplit(Suite):
     C10_storage_read_correct."""
     name = "hdd_split"
     per_case_timeout = 60.0
+    shard = 4
+    preamble = ("From Coq Require Import ZArith List.\nImport ListNotations.\nOpen Scope Z_scope.\n"
+                "From DH Require Import Base.Plan Base.Table Model.Chain Model.Hds Proofs.Layers Model.Hdd.\n")
+
+    # -- Coq side: Model/Hdd.v (bisect + walk over the storages, each storage read through its own chain of layers)
+    @staticmethod
+    def layer_terms(st):
+        terms = []
+        n = len(st["layers"])
+        for i, l in enumerate(st["layers"]):
+            if st["plain_base"] and i == n - 1:
+                terms.append("{| l_read := fun off n => Ok [SFile off n]; l_src := File |}")
+                continue
+            ent = [(k, e) for k, e in enumerate(l["bat"]) if e != 0]
+            cs = l["m_sectors"] * 512
+            mult = 1 if l["version"] == 1 else l["m_sectors"]
+            terms.append(f"hds_layer {{| h_size := {Z(l['size'])}; h_cs := {Z(cs)}; h_mult := {Z(mult)}; "
+                         f"h_bat := tbl {zpairs(ent)} 0 {Z(len(l['bat']))}; h_parent := {core.cbool(i < n - 1)} |}}")
+        return terms
+
+    @staticmethod
+    def cover(a, b):
+        o0 = a - a % 512
+        return o0, (a + b + 511) // 512 * 512 - o0
+
+    def coq_term(self, case):
+        hs, start = [], 0
+        for st in case["storages"]:
+            hs.append(f"({Z(start)}, {Z(start + st['nsect'])}, [{'; '.join(self.layer_terms(st))}])")
+            start += st["nsect"]
+        items = []
+        for a, b in case["reqs"]:
+            o0, n0 = self.cover(a, b)
+            items.append(f"(hdd_read_c hs {Z(o0)} {Z(n0)}, hdd_spec_c hs {Z(o0)} {Z(n0)})")
+        return "let hs := [" + "; ".join(hs) + "] in [" + "; ".join(items) + "]"
+
+    def mat(self, case, tagged):
+        files = [self._files(st) for st in case["storages"]]
+        out = []
+        for t in tagged:
+            _, idx, seg = t
+            seg = tuple(seg)
+            if seg[0] == "LSZero":
+                out.append(b"\x00" * seg[1])
+            elif seg[0] == "LSFile":
+                out.append(files[idx][seg[1]].content(seg[2], seg[3]))
+            else:
+                raise ValueError(f"unexpected segment {seg}")
+        return b"".join(out)
 
     def generate(self, rng, tier):
         n = 120 if tier == "thorough" else 14
@@ -329,9 +378,27 @@ class HddSplit(Suite):
         if impl_res["size"] != case["total"] * 512:
             fs.append(Finding("impl_vs_spec", f"size {impl_res['size']} != {case['total'] * 512}", "hdd:split:size"))
         exp = self.expected(case)
-        for (a, b), r in zip(case["reqs"], impl_res["reqs"]):
+        for k, ((a, b), r) in enumerate(zip(case["reqs"], impl_res["reqs"])):
             io = outcome_of(r)
             label = f"bytes({a},{b})"
+            if coq_val is not None:
+                # three-way: the Coq model of HDD.open()+StorageStream (Model/Hdd.v) and its pointwise spec (hdd_src)
+                _, model_v, spec_v = coq_val[k]
+                o0, n0 = self.cover(a, b)
+                sb = self.mat(case, spec_v)[a - o0:a - o0 + b]
+                if sb != exp[a:a + b]:
+                    fs.append(Finding("model_vs_spec", f"{label}: hdd_src differs from the per-storage overlay intent",
+                                      "hdd:split:spec-intent"))
+                m = core.res_of(model_v)
+                if m[0] != "ok":
+                    fs.append(Finding("model_vs_spec", f"{label}: hdd_read returned {m[0]}", "hdd:split:mvs-" + m[0]))
+                else:
+                    mb = self.mat(case, m[1])[a - o0:a - o0 + b]
+                    if mb != sb:
+                        fs.append(Finding("model_vs_spec", f"{label}: hdd_read differs from hdd_src", "hdd:split:mvs"))
+                    if io[0] == "ok" and io[1] != mb:
+                        fs.append(Finding("impl_vs_model", f"{label}: implementation differs from the model (Model/Hdd.v)",
+                                          "hdd:split:model"))
             if io[0] == "ok":
                 if io[1] != exp[a:a + b]:
                     dd = core.first_diff(io[1], exp[a:a + b])
